@@ -96,6 +96,31 @@ func ruleR15_3(w *World, r *Report) {
 	if n < 9 {
 		r.Lost(fmt.Sprintf("repeated element constructions (found %d)", n))
 	}
+	// the recursive builders number all nodes of one operation from ONE counter: every recursive
+	// call is handed the caller's own timestamp parameter, never a copy of it
+	nRec := 0
+	for _, fn := range fns {
+		if !rec[fn] || strings.Contains(strings.ToLower(fn.Name()), "unmarshal") {
+			continue
+		}
+		for _, c := range callsIn(fn) {
+			callee := staticCallee(c)
+			if callee == nil || !rec[callee] {
+				continue
+			}
+			for _, a := range c.Common().Args {
+				if !strings.HasSuffix(a.Type().String(), "model.Timestamp") {
+					continue
+				}
+				nRec++
+				_, isParam := throughHelperParam(a).(*ssa.Parameter)
+				r.Check(isParam, fnName(fn)+"/passes its own counter to "+callee.Name(), u.Pos(c.Pos()), "the caller's timestamp parameter", "a recursive builder is handed "+exprName(a)+" instead of the caller's own timestamp: the delimiters it consumes are not seen by the caller, and later nodes of the same operation get identifiers that are already taken")
+			}
+		}
+	}
+	if nRec < 4 {
+		r.Lost(fmt.Sprintf("recursive builder calls with a timestamp (found %d)", nRec))
+	}
 	// GetAndNextDelimiter itself: returns the current delimiter and increments
 	if g := u.Fn(pModel, "Timestamp", "GetAndNextDelimiter"); g != nil {
 		sts := storesTo(g, "$0.Delimiter")
